@@ -222,8 +222,10 @@ def select(records, per_fmt, rnd, always=lambda rec: False):
     chosen = []
     for fmt, lst in sorted(by.items()):
         cap = per_fmt.get(fmt, per_fmt.get('*', len(lst)))
-        keep = [x for x in lst if always(x[1])]
-        rest = [x for x in lst if not always(x[1])]
+        # small families that exist for one mechanism each are never sampled away
+        special = lambda rec: rec['L'].get('fill') == 'exact'
+        keep = [x for x in lst if always(x[1]) or special(x[1])]
+        rest = [x for x in lst if not (always(x[1]) or special(x[1]))]
         if len(keep) + len(rest) > cap:
             rnd.shuffle(rest)
             rest = rest[:max(0, cap - len(keep))]
